@@ -304,13 +304,9 @@ def _msb_demuxer(
         # If `u` is Hermitian, use the more accurate `eigh` method.
         dsquared, V = np.linalg.eigh(u)
     else:
-        dsquared, V = np.linalg.eig(u)
-        # Use Gram–Schmidt to obtain orthonormal eigenvectors for each of the subspaces.
-        for i in range(V.shape[0]):
-            for j in range(i):
-                if np.abs(dsquared[i] - dsquared[j]) < 1e-9:
-                    V[:, i] -= np.dot(V[:, j].conj(), V[:, i]) * V[:, j]
-            V[:, i] /= np.linalg.norm(V[:, i])  # normalize.
+        # `u` is unitary: the Schur form gives orthonormal eigenvectors also for (nearly)
+        # degenerate eigenvalues, where those of `np.linalg.eig` are not.
+        dsquared, V = decompositions.unitary_eig(u, check_preconditions=False)
     dsquared = dsquared.astype(np.complex128)
     d = np.sqrt(dsquared)
     D = np.diag(d)
